@@ -161,7 +161,7 @@ class C02(SolverSuite):
             # a shallow objective: the slope estimate M stays at its floor 1 for long stretches
             spec["objective"] = {"family": "scaled", "N": spec["objective"]["N"], "inner": spec["objective"], "k": rng.choice([0.01, 0.05, 0.2])}
         ops = G.sprinkle_evq(rng, ops, "S0", spec, refill=True)
-        ops = G.sprinkle_clone(rng, ops, "S0")
+        ops = G.sprinkle_clone(rng, ops, "S0", spec=spec)
         ops = G.sprinkle_misc(rng, ops, "S0")
         ops = _maybe_company(rng, actors, ops)
         if rng.random() < 0.06 and "params_obj" not in spec:
@@ -274,6 +274,7 @@ class C03(SolverSuite):
                 ops.append({"a": "S0", "op": "solve"})
         ops = G.sprinkle_evq(rng, ops, "S0", spec, prob=0.1)
         ops = G.sprinkle_misc(rng, ops, "S0", prob=0.08)
+        ops = G.sprinkle_clone(rng, ops, "S0", prob=0.06, spec=spec)
         if rng.random() < 0.08:
             # refine explicitly, then search on (and Solve again)
             ops += [{"a": "S0", "op": "refine", "n": rng.choice([1, 5, 25])}, {"a": "S0", "op": "iterate", "k": rng.randint(1, 6)}, {"a": "S0", "op": "solve"}]
@@ -398,7 +399,7 @@ class C04(SolverSuite):
             ops += [{"a": "S0", "op": "refine", "n": rng.choice([0, 1, 1, 5])}, {"a": "S0", "op": "results"}]
         actors = {"S0": spec}
         ops = G.sprinkle_evq(rng, ops, "S0", spec)
-        ops = G.sprinkle_clone(rng, ops, "S0")
+        ops = G.sprinkle_clone(rng, ops, "S0", spec=spec)
         ops = G.sprinkle_misc(rng, ops, "S0")
         ops = _maybe_company(rng, actors, ops)
         plan = G.base_plan(self.prop, run_seed, actors, ops, clock=G.gen_clock(rng))
@@ -466,6 +467,7 @@ class C05(SolverSuite):
             ops.append({"a": "S0", "op": rng.choice(["refine", "solve"]), "n": rng.choice([-1, 5, 50])})
             ops.append({"a": "S0", "op": "results"})
         ops = G.sprinkle_evq(rng, ops, "S0", spec)
+        ops = G.sprinkle_clone(rng, ops, "S0", prob=0.05, spec=spec)
         if L <= 40 and rng.random() < 0.06:
             # painting / console listeners attached (their objective probes are not trials; they must leave the result alone)
             from .suites_multi import gen_listeners
@@ -536,7 +538,7 @@ class C06(SolverSuite):
                                after_solve_iters=rng.choice([0, rng.randint(1, 8)]), refine_ops=rng.random() < 0.15)
         actors = {"S0": spec}
         ops = G.sprinkle_evq(rng, ops, "S0", spec)
-        ops = G.sprinkle_clone(rng, ops, "S0")
+        ops = G.sprinkle_clone(rng, ops, "S0", spec=spec)
         ops = G.sprinkle_misc(rng, ops, "S0")
         ops = _maybe_company(rng, actors, ops)
         plan = G.base_plan(self.prop, run_seed, actors, ops, clock=G.gen_clock(rng))
@@ -589,7 +591,7 @@ class C20(SolverSuite):
             ops = ops[:k] + [{"a": "S0", "op": "refine", "n": rng.choice([5, 25, 50])}] + ops[k:] + \
                 [{"a": "S0", "op": "iterate", "k": rng.randint(1, 20)}]
         ops = G.sprinkle_evq(rng, ops, "S0", spec, prob=0.2)
-        ops = G.sprinkle_clone(rng, ops, "S0", prob=0.08)
+        ops = G.sprinkle_clone(rng, ops, "S0", prob=0.08, spec=spec)
         actors = {"S0": spec}
         if rng.random() < 0.3:
             # company: solvers (or a bare construction) with OTHER densities whose lifetimes overlap with S0's
